@@ -344,3 +344,23 @@ Theorem C03_file_tree_depth1_example :
   flat_nodes t_init flat_ex = [Grp [103] 4315 []; Dset [100] 4580].
 Proof. exact flat_ex_ok. Qed.
 Print Assumptions C03_file_tree_depth1_example.
+
+(* refused calls leave the state (file and fw.groups) exactly as it was: these discharge the first alternative of flat_step *)
+Theorem C03_file_group_refused_unchanged : forall st p,
+  (forall x, prepare_link st (fst (NS.parse_path (NS.trim_suffix_slash p))) (snd (NS.parse_path (NS.trim_suffix_slash p))) 0 <> Ok x) ->
+  t_step st (TGroup p) = (st, false).
+Proof. exact group_refused_unchanged. Qed.
+Print Assumptions C03_file_group_refused_unchanged.
+
+Theorem C03_file_dataset_refused_unchanged : forall st p code dims data,
+  (forall x, prepare_link st (fst (NS.parse_path p)) (snd (NS.parse_path p)) 0 <> Ok x) ->
+  t_step st (TDataset p code dims data) = (st, false).
+Proof. exact dataset_refused_unchanged. Qed.
+Print Assumptions C03_file_dataset_refused_unchanged.
+
+Theorem C03_file_hardlink_refused_unchanged : forall st p q,
+  (forall t, resolve_addr st q <> Ok t) \/
+  (forall x, prepare_link st (fst (NS.parse_path p)) (snd (NS.parse_path p)) 0 <> Ok x) ->
+  t_step st (THardLink p q) = (st, false).
+Proof. exact hardlink_refused_unchanged. Qed.
+Print Assumptions C03_file_hardlink_refused_unchanged.
